@@ -316,6 +316,8 @@ def _shard(arg):
 
 
 def run(ctx):
+    from vf.gen import registry as _registry  # pylint: disable=import-outside-toplevel
+    _registry.warm()
     per_target = 400 if ctx.quick else 8000
     budget_s = 120 if ctx.quick else 1500
     jobs = [(index, ctx.derive_seed('shard', index), per_target, budget_s) for index in range(N_SHARDS)]
